@@ -476,6 +476,8 @@ def r18_4(ctx, m):
         ok = not outer and cmp1
         ctx.check(ok, "R18.4", dec.where(c), "the contig-name condition compares the SN tag values of the scaffold nodes (the whole tag or its value element), not the type letter, which is the same for every node", key_of(dec, f"sn-condition:{t[:120]}"), condition=t[:200])
     deg = [c for c in conds if "neighbors()" in ctext[id(c)]]
+    if len(deg) < 2 and any(isinstance(x, ast.Call) and isinstance(x.func, ast.Attribute) and x.func.attr == "neighbors" for x in walk_own(dec.node)):
+        raise AnalysisError("R18.4", dec.where(), f"the degrees of the scaffold nodes are computed (`.neighbors()`), but only {len(deg)} skip condition(s) could be traced to them: the census is not read")
     ctx.check(len(deg) >= 2, "R18.4", dec.where(), "the degree census (two ends of degree 1, all others of degree 2) leads to the skip return", key_of(dec, f"degree-conditions:{len(deg)}"))
     def _pair_sources(c):
         """for a test on the loop variables of `for a, b in zip(X, X[1:])`: the closure text of X"""
